@@ -844,3 +844,107 @@ def rf16k(run):
                       'original MIR, which printing, interpretation, inlining and a later generation see' % (g.name, F.src(F.strip(x['c'][0]))[:60]),
                       line=x['l'])
     run.min_instances(rule, 1)
+
+
+# ---------------------------------------------------------------------------------------------
+# RF16l: add_item — a name declared `export` ends up with an exported definition whatever the declaration order
+# ---------------------------------------------------------------------------------------------
+
+def rf16l(run):
+    import itertools
+    import rf_callmode as CM
+    from lib import regions as R
+    rule = 'RF16l'
+    run.rule(rule, 'add_item as a transition system over the kinds {export, forward, definition}: its switch is evaluated for every '
+                   '(kind in the module table, kind of the new item) pair into (which item represents the name afterwards, whether the '
+                   'definition gets export_p); composing the transitions over every order of export / forward / definition of one name, '
+                   'the definition is marked exported whenever the name was declared export (MIR_load_module publishes only items '
+                   'with export_p)')
+    tu = run.tu('mir')
+    f = tu.func('add_item')
+    run.functions_analysed.add(('mir', f.name))
+    sws = R.find_switches(f, lambda c: 'tab_item->item_type' in c)
+    if not sws:
+        raise F.AnalysisBroken('add_item: switch on tab_item->item_type not found')
+    regs = R.switch_regions(f, sws[0])
+    kinds = dict(tu.enum('MIR_item_type_t'))
+    EXP, FWD, DEF = kinds['MIR_export_item'], kinds['MIR_forward_item'], kinds['MIR_func_item']
+
+    class Ev(CM.RetEval):
+        def __init__(self, ev):
+            super().__init__(ev)
+            self.calls = []
+
+        def run(self, stmt, env):
+            if stmt is not None and stmt['k'] == 'BinaryOperator' and stmt['op'] == '=' and F.src(F.strip(stmt['c'][0])) == 'item' \
+                    and F.src(F.strip(stmt['c'][1])) == 'tab_item':
+                env['__item_is_tab__'] = 1
+                env['item->item_type'] = env.get('tab_item->item_type')
+                return True
+            if stmt is not None and stmt['k'] == 'BinaryOperator' and stmt['op'] == '=' and F.strip(stmt['c'][1])['k'] == 'CallExpr' \
+                    and F.strip(stmt['c'][1]).get('callee') == 'item_tab_insert':
+                self.calls.append('item_tab_insert')
+                return True
+            if stmt is not None and stmt['k'] == 'CallExpr':
+                self.calls.append(stmt.get('callee'))
+                from lib import absint as AI
+                if AI.is_error_call(stmt) is not None:
+                    env['__error__'] = 1
+                    return False
+                return True
+            if stmt is not None and stmt['k'] == 'BreakStmt':
+                return False
+            return super().run(stmt, env)
+
+    def transition(T, N, tab_exported):
+        reg = None
+        for r in regs:
+            if any(lo is not None and lo <= T <= (hi if hi is not None else lo) for nm, lo, hi in r['cases']):
+                reg = r
+        if reg is None:
+            raise F.AnalysisBroken('add_item: no case for table kind %d' % T)
+        ev = CM.TextEnv(tu)
+        env = {'tab_item->item_type': T, 'item->item_type': N, 'tab_item->export_p': tab_exported, 'item->export_p': 0}
+        e = Ev(ev)
+        for st in reg['stmts']:
+            if not e.run(st, env):
+                break
+        replaced = 'item_tab_insert' in e.calls
+        return {'error': bool(env.get('__error__')), 'replaced': replaced, 'new_export_p': env.get('item->export_p'),
+                'tab_export_p': env.get('tab_item->export_p'), 'item_is_tab': bool(env.get('__item_is_tab__'))}
+    names = {EXP: 'export', FWD: 'forward', DEF: 'definition'}
+    n = 0
+    for seq in [p for k in (2, 3) for p in itertools.permutations([EXP, FWD, DEF], k) if EXP in p and DEF in p]:
+        table, table_exp, def_exp, err = None, 0, None, False
+        trace = []
+        for N in seq:
+            if table is None:
+                table, table_exp = N, 0
+                if N == DEF:
+                    def_exp = 0
+                trace.append('%s: first declaration' % names[N])
+                continue
+            t = transition(table, N, table_exp)
+            trace.append('%s on %s: %s' % (names[N], names[table], {k_: v_ for k_, v_ in t.items() if v_}))
+            if t['error']:
+                err = True
+                break
+            if None in (t['new_export_p'], t['tab_export_p']):
+                raise F.AnalysisBroken('add_item: export flag not evaluable for %s on %s' % (names[N], names[table]))
+            if N == DEF:
+                def_exp = t['new_export_p']
+            if table == DEF:
+                def_exp = t['tab_export_p']
+                table_exp = t['tab_export_p']
+            if t['replaced']:
+                table = N
+                table_exp = t['new_export_p'] if N == DEF else 0
+        ok = (not err) and def_exp == 1
+        n += 1
+        run.ob(rule, tuple(names[k_] for k_ in seq), ok, {'declaration order': [names[k_] for k_ in seq], 'definition exported': def_exp, 'trace': trace})
+        if not ok:
+            run.violation(rule, f, 'declaration order %s' % ', '.join(names[k_] for k_ in seq),
+                          'after `%s` of one name add_item leaves the definition %s: MIR_load_module publishes only items with export_p, so '
+                          'importers in other modules do not bind to this definition (%s)'
+                          % ('; '.join(names[k_] for k_ in seq), 'rejected with an error' if err else 'without export_p', ' | '.join(trace)), line=f.line)
+    run.min_instances(rule, 6)
